@@ -43,7 +43,13 @@ class Light(light.Light):
 class MultizoneLight(Light, i_controller.MultizoneLight):
     def __init__(self, impl, num_zones=None):
         super().__init__(impl)
-        self._num_zones = num_zones or len(self.get_zone_colors())
+        if not num_zones:
+            zone_colors = self.get_zone_colors()
+            if zone_colors is None:
+                raise i_controller.LightException(
+                    'No zone information from "{}"'.format(self.get_name()))
+            num_zones = len(zone_colors)
+        self._num_zones = num_zones
 
     def get_num_zones(self) -> int:
         return self._num_zones
@@ -77,6 +83,9 @@ class MatrixLight(Light, i_controller.MatrixLight):
         self._width = width
         if self._width is None or self._height is None:
             self._get_size()
+            if self._width is None or self._height is None:
+                raise i_controller.LightException(
+                    'No size information from "{}"'.format(self.get_name()))
 
     @tries(_MAX_TRIES, WorkflowException)
     def _get_size(self) -> None:
